@@ -323,7 +323,7 @@ func Execute(c Case, keepTrace bool, ch chooser) (res Result) {
 		}
 		if nested {
 			depth := 0
-			st.Nested = func(site string) {
+			st.Nested = func(sctx context.Context, site string) {
 				if depth > 0 || len(slots[i].nested) >= 4 {
 					return
 				}
@@ -333,7 +333,8 @@ func Execute(c Case, keepTrace bool, ch chooser) (res Result) {
 				inner := store.New(c.inputsFor(t), pl)
 				inner.Yield = s.yield
 				tr.Add("task %d: its store, asked %s, runs the script itself before answering", i, site)
-				slots[i].nested = append(slots[i].nested, exec.Run(ctx, pr, copyVars(t.Vars), inner, flagsMap(t)))
+				// the inner run is started with the context the store was handed, as a store would
+				slots[i].nested = append(slots[i].nested, exec.Run(sctx, pr, copyVars(t.Vars), inner, flagsMap(t)))
 				res.Probes["nested_runs_inside_a_store_call"]++
 				depth--
 			}
